@@ -910,12 +910,11 @@ impl C18 {
         } else {
             std::env::current_exe().expect("current exe")
         };
-        let st = std::process::Command::new(exe)
-            .env("C18_BIG", format!("{kind} {n}"))
-            .stdout(std::process::Stdio::null())
-            .stderr(std::process::Stdio::null())
-            .status()
-            .expect("spawn child");
+        let mut cmd = std::process::Command::new(exe);
+        cmd.env("C18_BIG", format!("{kind} {n}")).stdout(std::process::Stdio::null()).stderr(std::process::Stdio::null());
+        // the usual 8 MiB main-thread stack, whatever `ulimit -s` says here
+        vh::pin_child_stack(&mut cmd);
+        let st = cmd.status().expect("spawn child");
         if !st.success() {
             out.fail(
                 Kind::ImplPanic,
